@@ -31,11 +31,22 @@ Stat0 == [cases |-> 0, pubs |-> 0, accepted |-> 0, rejected |-> 0, hist |-> 0, e
           bh_FcRating |-> 0, bh_FcTransient |-> 0, bh_GenRating |-> 0, bh_EdrvRating |-> 0, bh_ResRating |-> 0,
           bh_ResDisch |-> 0, bh_ResCharge |-> 0, bh_LocoPub |-> 0, bh_SocWindow |-> 0, bh_Ramp |-> 0, bh_PublishedSane |-> 0,
           \* ... and over-limit requests of that kind that the code rejected
-          rej_over |-> 0]
+          rej_over |-> 0,
+          \* accepted steps whose efficiency lookup lay below (lo) / above (hi) the grid of the map (fc, gen, edrv 1-D;
+          \* battery 3-D: temperature, SOC, C-rate axis)
+          oog_f_lo |-> 0, oog_f_hi |-> 0, oog_g_lo |-> 0, oog_g_hi |-> 0, oog_e_lo |-> 0, oog_e_hi |-> 0,
+          oog_rt_lo |-> 0, oog_rt_hi |-> 0, oog_rs_lo |-> 0, oog_rs_hi |-> 0, oog_rc_lo |-> 0, oog_rc_hi |-> 0,
+          \* what the drivers ISSUED, whatever the code under test did with it (the vacuity floors of the group)
+          in_conv |-> 0, in_bel |-> 0, in_hyb |-> 0, in_gss |-> 0, in_mapped |-> 0,
+          in_req |-> 0, in_req_limit |-> 0, in_req_regen |-> 0, in_req_brake |-> 0, in_req_zero |-> 0, in_eng_off |-> 0,
+          \* requests issued so as to land outside a map grid: low / high demand on a unit whose grid stops short of 0 / 1
+          \* (high: the unit's designed bottleneck), temperature or initial SOC outside the battery grid
+          io_f_lo |-> 0, io_f_hi |-> 0, io_g_lo |-> 0, io_g_hi |-> 0, io_e_lo |-> 0, io_e_hi |-> 0,
+          io_rt_lo |-> 0, io_rt_hi |-> 0, io_rs_lo |-> 0, io_rs_hi |-> 0, io_rc_lo |-> 0, io_rc_hi |-> 0]
 DummyCfg == [kind |-> "conv", rfc |-> 1, rgen |-> 1, redrv |-> 1, rres |-> 1, floor |-> 0, lag |-> 1, aux |-> 0,
              auxkd |-> 0, idle |-> 0, kf |-> 1, kg |-> 1, ke |-> 1, kr |-> 1, flat |-> TRUE, cap |-> 16, smin |-> 0,
              slo |-> 0, shi |-> 16, smax |-> 16, delta |-> 1, ps |-> 1, ds |-> 1, lat |-> FALSE, assert |-> TRUE,
-             pb0 |-> 0, haux |-> 0, split2 |-> 1, gssr |-> 0, gssk |-> 0]
+             pb0 |-> 0, haux |-> 0, split2 |-> 1, gssr |-> 0, gssk |-> 0, glo_f |-> 0, ghi_f |-> 0, glo_g |-> 0, ghi_g |-> 0, glo_e |-> 0, ghi_e |-> 0, bnd |-> "n", rtout |-> 0]
 
 TInit == /\ l = 1 /\ viol = <<>> /\ stats = Stat0 /\ l0 = 1 /\ rep = {} /\ nk = [x \in KnownNames |-> 0] /\ pex = TRUE /\ drifts = <<>>
          /\ cfg = DummyCfg /\ soc0 = 0 /\ soc = 0 /\ psoc = 0
@@ -57,10 +68,11 @@ Reset(r) == /\ soc' = soc0' /\ psoc' = soc0'
             /\ gap' = 0 /\ safe' = TRUE /\ ex' = TRUE /\ i' = 1 /\ n' = 0 /\ hist' = <<>> /\ pex' = TRUE
 
 Begin == /\ Rec[l].ev = "begin"
-         /\ cfg' = Rec[l].desc.cfg @@ [pb0 |-> 0, haux |-> 0, split2 |-> 1, gssr |-> 0, gssk |-> 0]     \* descriptors older than the hybrid extension
+         /\ cfg' = Rec[l].desc.cfg @@ [pb0 |-> 0, haux |-> 0, split2 |-> 1, gssr |-> 0, gssk |-> 0, glo_f |-> 0, ghi_f |-> 0, glo_g |-> 0, ghi_g |-> 0, glo_e |-> 0, ghi_e |-> 0, bnd |-> "n", rtout |-> 0]     \* descriptors older than the hybrid extension
          /\ soc0' = Rec[l].desc.soc0
          /\ Reset(Rec[l]) /\ l0' = l /\ rep' = {}
-         /\ Bump([cases |-> 1])
+         /\ Bump([cases |-> 1, in_conv |-> B(cfg'.kind = "conv"), in_bel |-> B(cfg'.kind = "bel"), in_hyb |-> B(cfg'.kind = "hyb"),
+                   in_gss |-> B(cfg'.gssr > 0), in_mapped |-> B(~cfg'.flat)])
          /\ UNCHANGED <<viol, nk, drifts>>
 
 (* Level-A conjuncts evaluated on a state where limits have just been published *)
@@ -77,6 +89,25 @@ AccChecks == <<
    <<"FcRating", FcRating'>>, <<"FcTransient", FcTransient'>>, <<"GenRating", GenRating'>>, <<"EdrvRating", EdrvRating'>>,
    <<"ResRating", ResRating'>>, <<"ResDisch", ResDisch'>>, <<"ResCharge", ResCharge'>>, <<"LocoPub", LocoPub'>>,
    <<"SocWindow", SocWindow'>> >>
+
+(* requests issued by the driver (call-by-call records only), by class group *)
+LimitCls == {"pubm", "pub", "pubp", "over", "rate", "ratep", "f7", "f8"}
+RegenCls == {"regenm", "regen", "regenp", "r7", "r8"}
+BrakeCls == {"dyn", "dynp", "b1", "b2", "b3", "b4", "b8"}
+LowCls == {"zero", "f0", "f1"}
+HighBrk == {"dyn", "dynp", "b4", "b8", "rate", "ratep"}
+InStats(r) == IF r.walk THEN [in_req |-> 0]
+              ELSE [io_f_lo |-> B(HasFc /\ cfg.glo_f = 1 /\ r.cls \in LowCls \cup BrakeCls \cup RegenCls),
+                    io_f_hi |-> B(cfg.ghi_f = 1 /\ cfg.bnd = "f" /\ r.cls \in LimitCls),
+                    io_g_lo |-> B(HasFc /\ cfg.glo_g = 1 /\ r.cls \in LowCls \cup BrakeCls \cup RegenCls),
+                    io_g_hi |-> B(cfg.ghi_g = 1 /\ cfg.bnd = "g" /\ r.cls \in LimitCls),
+                    io_e_lo |-> B(cfg.glo_e = 1 /\ r.cls \in LowCls),
+                    io_e_hi |-> B(cfg.ghi_e = 1 /\ r.cls \in HighBrk),
+                    io_rt_lo |-> B(cfg.rtout < 0), io_rt_hi |-> B(cfg.rtout > 0),
+                    io_rs_lo |-> B(HasRes /\ ~cfg.flat /\ 4 * soc0 < cfg.cap), io_rs_hi |-> B(HasRes /\ ~cfg.flat /\ 4 * (soc0 \div 3) > cfg.cap),
+                    io_rc_lo |-> B(cfg.bnd = "r" /\ r.cls \in RegenCls \cup BrakeCls), io_rc_hi |-> B(cfg.bnd = "r" /\ r.cls \in LimitCls),
+                    in_req |-> 1, in_req_limit |-> B(r.cls \in LimitCls), in_req_regen |-> B(r.cls \in RegenCls),
+                    in_req_brake |-> B(r.cls \in BrakeCls), in_req_zero |-> B(r.cls \in {"zero", "f0"}), in_eng_off |-> B(~st.eng)]
 
 (* boundary hits: the conjunct's quantity lies within Band below its own limit (or in the tolerance band above it) *)
 Band(lim) == Max2(lim \div 64, 2 * cfg.delta)
@@ -95,6 +126,9 @@ AccStats(r) == [accepted |-> B(~r.walk), hist |-> B(r.walk), exact |-> B(ex'), i
                 bh_ResDisch |-> B(HasRes /\ r.p.elec > 0 /\ Near(r.p.elec, pub.disch)),
                 bh_ResCharge |-> B(HasRes /\ r.p.elec < 0 /\ Near(-r.p.elec, pub.charge)),
                 bh_LocoPub |-> B(cfg.flat /\ r.req > 0 /\ Near(r.p.out, pub.loco)),
+                oog_f_lo |-> B(r.oog.f < 0), oog_f_hi |-> B(r.oog.f > 0), oog_g_lo |-> B(r.oog.g < 0), oog_g_hi |-> B(r.oog.g > 0),
+                oog_e_lo |-> B(r.oog.e < 0), oog_e_hi |-> B(r.oog.e > 0), oog_rt_lo |-> B(r.oog.rt < 0), oog_rt_hi |-> B(r.oog.rt > 0),
+                oog_rs_lo |-> B(r.oog.rs < 0), oog_rs_hi |-> B(r.oog.rs > 0), oog_rc_lo |-> B(r.oog.rc < 0), oog_rc_hi |-> B(r.oog.rc > 0),
                 bh_SocWindow |-> B(HasRes /\ safe' /\ (r.soc <= cfg.smin + (cfg.slo - cfg.smin) \div 16
                                                         \/ r.soc >= cfg.smax - (cfg.smax - cfg.shi) \div 16))]
 (* published limits sitting on a bound of PublishedSane / set by the ramp term of Ramp *)
@@ -148,7 +182,7 @@ SolveAcc == /\ Rec[l].ev = "Solve" /\ Rec[l].acc
                                 THEN \/ Rec[cb].p # p' \/ Rec[cb].e # e' \/ Rec[cb].soc # soc' \/ Rec[cb - 1].pub # pub
                                 ELSE TRUE)
                           ELSE FALSE
-               IN /\ Bump(AccStats(Rec[l]) @@ [b_checked |-> B(chk), drift_ok |-> B(bok), drift_val |-> B(bvl), walk_diff |-> B(wd)])
+               IN /\ Bump(AccStats(Rec[l]) @@ InStats(Rec[l]) @@ [b_checked |-> B(chk), drift_ok |-> B(bok), drift_val |-> B(bvl), walk_diff |-> B(wd)])
                   /\ IF bok THEN Note("accepted-but-model-rejects", [req |-> Rec[l].req, pub |-> pub])
                      ELSE IF bvl THEN Note("values", [impl |-> p', model |-> m.p])
                      ELSE IF wd THEN Note("walk-differs", [k |-> k])
@@ -161,7 +195,7 @@ SolveRej == /\ Rec[l].ev = "Solve" /\ ~Rec[l].acc
             /\ UNCHANGED <<cfg, pub, p, e, pe, eta, soc, psoc, soc0, gap, safe, ex, i, hist, l0, rep, nk, pex, viol>>
             /\ LET chk == cfg.lat /\ ex /\ Rec[l].exact
                    bok == IF chk THEN SolveOf(cfg, pub, Rec[l].req, st.eng, soc).ok ELSE FALSE
-               IN /\ Bump([rejected |-> 1, b_checked |-> B(chk), drift_ok |-> B(bok),
+               IN /\ Bump(InStats(Rec[l]) @@ [rejected |-> 1, b_checked |-> B(chk), drift_ok |-> B(bok),
                            rej_over |-> B(Rec[l].req > pub.loco /\ Rec[l].req <= pub.loco + Band(pub.loco))])
                   /\ IF bok THEN Note("rejected-but-model-accepts", [req |-> Rec[l].req, pub |-> pub, msg |-> Rec[l].msg])
                             ELSE UNCHANGED drifts
